@@ -109,7 +109,14 @@ class AttrRoles:
         return out
 
     def _stmts(self, body, init: FuncInfo, env, depth, loopvars, loopsrc):
+        from .normal import as_loop
+
+        expanded = []
         for st in strip_docstring(body):
+            # comprehension statements that fill self.children are read as the loops they stand for
+            lp = as_loop(st) if ('self.children' in unparse(st.target if isinstance(st, ast.AugAssign) else st)[:60] and isinstance(st, (ast.AugAssign, ast.Expr))) else None
+            expanded.extend(lp if lp is not None else [st])
+        for st in expanded:
             if isinstance(st, ast.Expr) and isinstance(st.value, ast.Call):
                 c = st.value
                 f = c.func
@@ -340,6 +347,10 @@ class RecordTemplate:
 
     def _walk(self, body, loopvars, items):
         for st in body:
+            # normal form: `x += [e]` is written `x.append(e)`
+            if isinstance(st, ast.Expr) and isinstance(st.value, ast.Call) and isinstance(st.value.func, ast.Attribute) and st.value.func.attr == 'append' \
+                    and isinstance(st.value.func.value, ast.Name) and len(st.value.args) == 1 and not st.value.keywords:
+                st = ast.copy_location(ast.AugAssign(target=ast.Name(id=st.value.func.value.id, ctx=ast.Store()), op=ast.Add(), value=ast.copy_location(ast.List(elts=[st.value.args[0]], ctx=ast.Load()), st)), st)
             if isinstance(st, ast.Assign) and len(st.targets) == 1 and isinstance(st.targets[0], ast.Name):
                 name = st.targets[0].id
                 if name == self.acc:
